@@ -613,6 +613,16 @@ impl<'a> Exec<'a> {
             self.looked.push(e.inode);
         }
     }
+    /// opening a fifo would block the driver: such operations are not issued (status -6)
+    fn regular_or_dirlike(&self, ino: u64) -> Result<(), i64> {
+        match self.fs.getattr(&self.ctx, ino, None) {
+            Ok((st, _)) => match st.st_mode & libc::S_IFMT {
+                libc::S_IFREG | libc::S_IFDIR | libc::S_IFLNK => Ok(()),
+                _ => Err(-6),
+            },
+            Err(e) => Err(errno_of(&e)),
+        }
+    }
     fn forget_all(&mut self) {
         for i in self.looked.drain(..).rev() {
             self.fs.forget(&self.ctx, i, 1);
@@ -691,6 +701,7 @@ impl<'a> Exec<'a> {
             }
             "write" => {
                 let ino = self.resolve(&p)?;
+                self.regular_or_dirlike(ino)?;
                 let data = blocks.bytes(&parse_runs(&op["c"]));
                 let off = op["off"].as_u64().unwrap_or(0) * blocks.b as u64;
                 let flags = if op["rdwr"].as_bool().unwrap_or(false) { libc::O_RDWR } else { libc::O_WRONLY };
@@ -720,6 +731,7 @@ impl<'a> Exec<'a> {
             }
             "truncate" => {
                 let ino = self.resolve(&p)?;
+                self.regular_or_dirlike(ino)?;
                 let mut st: stat64 = unsafe { std::mem::zeroed() };
                 st.st_size = (op["n"].as_u64().unwrap_or(0) * blocks.b as u64) as i64;
                 self.fs.setattr(&self.ctx, ino, st, None, SetattrValid::SIZE).map(|_| ()).map_err(e2n)
@@ -842,6 +854,10 @@ impl Scn {
             None => -5,
         };
         let mut ev = op.clone();
+        if !op["c"].is_null() {
+            // contents always cross the log as runs
+            ev["c"] = Value::Array(parse_runs(&op["c"]).into_iter().map(|(s, i, n)| json!([s, i, n])).collect());
+        }
         ev["e"] = json!("Op");
         ev["seg"] = json!(self.seg);
         ev["st"] = json!(st);
